@@ -11,6 +11,7 @@ import (
 	"reflect"
 	"runtime"
 	"sort"
+	"strconv"
 	"strings"
 	"testing"
 	"time"
@@ -610,8 +611,10 @@ func c17InGrammar(s string) bool {
 			return false
 		}
 	}
-	var n int64
-	fmt.Sscan(ip, &n)
+	n, err := strconv.ParseInt(ip, 10, 64) // decimal (Sscan would read a leading 0 as an octal prefix)
+	if err != nil {
+		return false
+	}
 	if fp != "" {
 		return n < int64(1)<<(44-10*k)
 	}
